@@ -9,7 +9,7 @@
         <work_dir>/<CONTEXT_ID>/<array name>  (plan.py intermediate_store, blockwise target_names)  ↦ `Loc.inter n`
         a path handed to store / to_zarr                                          ↦ `Loc.target t`
         source data (NumPy array held by a Virtual*Array, Zarr array opened by from_zarr)  ↦ `Loc.ext n`
-    contents of a location: absent | created, nothing written (fill) | written    ↦ `Store = Loc → Option Val`
+    contents of a location: absent | created, nothing written (fill) | written    ↦ `Store` (lookup function `Loc → Option Val`)
     `PrimitiveOperation` objects shared (by reference) between all plans          ↦ `OpObj` in `State.heap`
         .source_array_names ↦ srcs      .pipeline.config.reads_map (CubedArrayProxy captured at build) ↦ reads
         .pipeline.config.writes_map[out].array ↦ wloc     .target_array ↦ target
@@ -22,15 +22,24 @@
     `from_array`/`asarray`/`from_zarr`                                            ↦ `State.input`, `State.fromZarr`
     `_store_array`: lazy-source branch (in-place re-targeting)                    ↦ `State.retarget`
                     other branch (identity blockwise into the target)             ↦ `State.derive … (wl := target t)`
-    `store` / `to_zarr` (compute=True|False)                                      ↦ `State.storeStep`
+    `store` / `to_zarr` (compute=True|False)                                      ↦ `State.storePairs`, `Step.store`
     `multiple_inputs_optimize_dag` / `fuse_predecessors` / `can_fuse_predecessors` ↦ `optimize` / `fuseStep` / `canFuse`
-        (hard conditions are in `fuseStep`; the size limits are the parameter `soft`, `softDefault` is the shipped one)
-    fused op = predecessor functions applied in memory, reads_map merged by array name (`fuse_blockwise_specs`) ↦ `XOp`, `evalFused`
+        (hard conditions — producer fusable with successors, single consumer, no requested predecessor — are in
+        `fuseStep`; the size limits are the parameter `soft`, `softDefault` is the shipped policy)
+    `fuse_multiple` / `fuse_blockwise_specs`: a fused op = predecessor functions applied in memory, `reads_map`
+        merged by array name (later wins), in-edges inherited, `fusable_with_successors` back to the default True
+                                                                                  ↦ `XOp`, `predsOf`, `fusedXOp`, `evalFused`
     `Plan._finalize` / `_create_lazy_zarr_arrays` (create every lazy target of the optimized dag, mode "a") ↦ `createAll`
     `FinalizedPlan.execute` resume marking (`already_computed`: all chunks of the node's target present) ↦ `skipOf`
     executor run in topological order (`visit_nodes`)                             ↦ `execPlan`
     `compute(*arrays)` / `CoreArray.compute` / `_read_stored`                     ↦ `State.compute`
     `visualize`, `plan`, changing the default executor: no effect on the modelled state ↦ `Step.noop`
+    one API call / a history of calls                                             ↦ `State.step` / `State.run`
+
+  Predicates used by the theorems: `HeapWF`, `WF` (structure of heap, pool and dags), `Linked` (every read location
+  = the producer's current write location = the location the dag creates), `StoreOK` (stored contents are built
+  values), `Inv` = all three; `Basic` (facts of every reachable state, defect or not); `PoolStable`; `GoodStep`,
+  `AllGood`, `NoLate`, `Step.lateRetarget` (statement of the property along a history).
 -/
 namespace Cubed.History
 
